@@ -30,7 +30,6 @@ def _serve():
     assert os.path.realpath(soundevent.__file__).startswith(os.path.realpath(repo_src)), soundevent.__file__
     import soundevent.evaluation  # noqa: F401
     from harness.props import c07
-    from harness.core import canon_exc
     sys.stdout.write("ready\n")
     sys.stdout.flush()
     for line in sys.stdin:
@@ -41,14 +40,20 @@ def _serve():
             os.close(r)
             outs = []
             try:
-                if req.get("op") == "match_history":
-                    data = json.dumps(c07.OPS["match_history"].impl(req["h"]))
+                if req.get("op") in ("match_history", "match_interleaved"):
+                    out = c07.OPS[req["op"]].impl(req["h"])
+                    libs = {}
+                    for step in req["h"]["seq"]:       # as the judge of a replay would see the library afterwards
+                        k = c07._core_key(step["inp"])
+                        if k not in libs:
+                            try:
+                                libs[k] = c07._observe_lib(step["inp"])
+                            except Exception:  # noqa: BLE001
+                                pass
+                    data = json.dumps({"out": out, "libs": libs})
                 else:
                     for step in req["h"]["seq"]:
-                        try:
-                            outs.append(c07._impl_match(step["inp"]))
-                        except Exception as e:  # noqa: BLE001 - an exception of the real code is an observation
-                            outs.append(canon_exc(e))
+                        outs.append(c07._observe(step["inp"]))
                     data = json.dumps({"steps": outs})
             except BaseException as e:  # noqa: BLE001
                 data = json.dumps({"error": repr(e)[:300]})
@@ -85,7 +90,8 @@ class Fresh:
 
     def run(self, hist, op="plain", timeout=30):
         """the history in a fresh process: with op="plain" every step is a fresh call (canonical outputs of the
-        steps), with op="match_history" the history operation itself (reuse / poison honoured; its whole output).
+        steps), with op="match_history" / "match_interleaved" that operation itself (reuse / poison honoured; its
+        whole output and the library's matrices as a judge would see them afterwards).
         None when the probe is unavailable."""
         if not self.ok:
             return None
@@ -95,7 +101,7 @@ class Fresh:
             ans = json.loads(self._readline(timeout))
             if "error" in ans:
                 return None
-            return ans if op == "match_history" else ans.get("steps")
+            return ans.get("steps") if op == "plain" else ans
         except Exception:  # noqa: BLE001
             self.ok = False
             self.close()
